@@ -1,6 +1,7 @@
 import Driver.Util
 import Driver.C01
 import Driver.C02
+import Driver.C03
 import Driver.C04
 import Driver.C05
 import Driver.C10
@@ -29,6 +30,7 @@ structure DState where
   rpc : Amqp.Rpc.S := {}
   errs : Amqp.Errors.C := {}
   cons : Amqp.Consumers.S := {}
+  deliv : Amqp.Deliver.S := {}
 
 def handlers : List Handler := [
   Driver.C04.handle,
@@ -62,6 +64,9 @@ def step (st : DState) (line : String) : DState × String :=
   | none =>
   match Driver.C14.stepCmd st.cons args with
   | some (c, o) => ({ st with cons := c }, o)
+  | none =>
+  match Driver.C03.stepCmd st.deliv args with
+  | some (d, o) => ({ st with deliv := d }, o)
   | none =>
     match handlers.findSome? (fun h => h args) with
     | some o => (st, o)
